@@ -945,11 +945,16 @@ type c18Stats struct {
 	MaxJSON     int                     `json:"max_json"`
 	Aborted     bool                    `json:"aborted"`
 	Probe       map[string]any          `json:"probe,omitempty"`
+	// histories of near-duplicate values (c18hist.go): "kind:variant" -> histories in which every step round-tripped / did not
+	Hist      map[string]int `json:"histories_ok"`
+	HistBad   map[string]int `json:"histories_bad"`
+	HistSteps int            `json:"history_steps"`
 }
 
 func newC18Stats() *c18Stats {
 	return &c18Stats{PerKind: map[string]*c18KindStat{}, Boundaries: map[string]int{}, NameClasses: map[string]int{}, ReadModes: map[string]int{},
-		Rejected: map[string]int{}, RejectedClean: map[string]int{}, PathLimit: map[string]map[string]int{}, UTF8: map[string]int{}, SeqLens: map[int]int{}}
+		Rejected: map[string]int{}, RejectedClean: map[string]int{}, PathLimit: map[string]map[string]int{}, UTF8: map[string]int{}, SeqLens: map[int]int{},
+		Hist: map[string]int{}, HistBad: map[string]int{}}
 }
 
 // classifyPath files a FileBegin path under (widest character in bytes; byte
@@ -1022,6 +1027,9 @@ func (st *c18Stats) merge(o *c18Stats) {
 	}
 	addMap(st.UTF8, o.UTF8)
 	addMap(st.SeqLens, o.SeqLens)
+	addMap(st.Hist, o.Hist)
+	addMap(st.HistBad, o.HistBad)
+	st.HistSteps += o.HistSteps
 	st.SeqRecords += o.SeqRecords
 	st.SeqHeaders += o.SeqHeaders
 	st.SeqOK += o.SeqOK
@@ -1373,7 +1381,10 @@ func c18RunShard(R *vk.Report, tier string, seed uint64, shard int, caseLog *os.
 		}
 	}
 
-	// ---- 5. beyond the 16-bit limits (outside the property's quantifier; diagnostic only) ----
+	// ---- 5. histories of near-duplicate values of one record type (c18hist.go) ----
+	c18RunHistories(R, st, tier, base, shard, begin, violate, abort)
+
+	// ---- 6. beyond the 16-bit limits (outside the property's quantifier; diagnostic only) ----
 	if shard == 0 {
 		st.Probe = map[string]any{}
 		for i, p := range []c18Rec{
